@@ -53,6 +53,10 @@ def cases(tier, seed):
         for n in range(3):      # one case per normal: the 4-level plotfiles are the long poles
             cs.append({"gen": g, "sel_seed": seed * 47 + i * 3 + n, "per_class": 2 if tier == "quick" else 3,
                        "normals": [n], "fmt": dict(ref_ratio_extra=rng.choice([0, 0, 1, 3]), trailing_blank=rng.random() < 0.7, close_blank=rng.random() < 0.3, floatfmt=rng.choice(["repr", "17g"]))})
+    # scale: more than 128 boxes of unequal extents at a level (one case per normal in the thorough tier)
+    for n in ((seed % 3,) if tier == "quick" else (0, 1, 2)):
+        cs.append({"scale": "unequal", "gen": dict(seed=seed * 11 + 7170 + n, names=NAMES, payload="affine"),
+                   "sel_seed": seed * 47 + 7170 + n, "per_class": 1, "normals": [n], "fmt": {}})
     return workload.add_reach_store(cs)
 
 
